@@ -147,6 +147,19 @@ def _h_fnv_first(key, depth=1):
     return [fnv_1a(key, 0)] + [_fnv64(kb, 14695981039346656037 + 977 * i + 3) for i in range(1, depth)]
 
 
+def _h_fixed8(key, depth=1):
+    """one digest cut into eight 64-bit words whatever the depth (more for deeper requests): a list LONGER than the filter needs.
+    Only for the plain / on-disk Bloom filters, which read the first number_hashes entries"""
+    kb = _as_bytes(key)
+    out = []
+    i = 0
+    while len(out) < max(8, depth):
+        dg = hashlib.sha512(kb + bytes([i])).digest()
+        out.extend(int.from_bytes(dg[j:j + 8], "big") for j in range(0, 64, 8))
+        i += 1
+    return out[:max(8, depth)]
+
+
 def _h_tiny(key, depth=1):
     """values in 0..3 only: everything collides in any geometry"""
     kb = _as_bytes(key)
@@ -192,6 +205,8 @@ def hash_by_name(name):
         f = _h_pairs
     elif name == "tiny":
         f = _h_tiny
+    elif name == "fixed8":
+        f = _h_fixed8
     elif name == "fnv_first":
         f = _h_fnv_first
     elif name == "dec_fnv":  # hash_with_depth_int(fnv_1a): first value equals the default strategy's, the chain differs
